@@ -96,7 +96,10 @@ def main():
     for p in props:
         pid = p["id"]
         if pid in CLAIMED:
-            c = CLAIMED[pid]
+            c = dict(CLAIMED[pid])
+            override = os.path.join(V, "tools", "manifest_text", pid + ".txt")   # the builder's own final paragraph, if any
+            if os.path.exists(override):
+                c["text"] = " ".join(open(override).read().split())
             checks.append({
                 "property_id": pid,
                 "quick_cmd": f"./check {pid} --tier quick",
